@@ -34,6 +34,12 @@ def run (w : W) (args : List String) : W × String :=
   | ["cl.call"] =>
     let w' := startCall w
     (w', if w.canWrite then "writing" else "failed")
+  | ["cl.call", _] =>     -- which client of the endpoint calls does not matter: one id counter
+    let w' := startCall w
+    (w', if w.canWrite then "writing" else "failed")
+  | ["cl.client"] => (w, "ok")
+  | ["cl.replyid", _] =>  -- a reply no handler is waiting for
+    if w.readDead || w.closed then (w, "dead") else (w, "dispatched")
   | ["cl.wok", c] => (quiesce (writeOk w c.toNat!), "ok")
   | ["cl.wfail", c] => (quiesce (writeFail w c.toNat!), "ok")
   | ["cl.cancel", c] =>
